@@ -38,8 +38,14 @@ func drawC03(rt *rapid.T) *Case {
 	return &Case{Path: text, Doc: d, UseNumber: rapid.Bool().Draw(rt, "usenumber"), Funcs: true, Strs: []string{fam}}
 }
 
+// checkC03Text is checkC03 for cases whose document is given as text (native fuzzing, replays).
+func checkC03Text(c *Case, st *Stats) string { return checkC03(c, st) }
+
 func checkC03(c *Case, st *Stats) string {
-	docText := c.Doc.JSON()
+	docText := c.DocText
+	if c.Doc != nil {
+		docText = c.Doc.JSON()
+	}
 	Journal(c.Check, c.Path, docText, flagString(c))
 	rec := &Recorder{}
 	f, err := parseWith(c.Path, c.Funcs, false, rec)
@@ -64,10 +70,10 @@ func checkC03(c *Case, st *Stats) string {
 	}
 	st.Class("outcome:" + outcome)
 	root := "container"
-	switch c.Doc.K {
-	case gen.DNull:
+	switch doc.(type) {
+	case nil:
 		root = "null"
-	case gen.DObj, gen.DArr:
+	case map[string]interface{}, []interface{}:
 	default:
 		root = "scalar"
 	}
@@ -96,6 +102,7 @@ func checkC03(c *Case, st *Stats) string {
 
 func init() {
 	Register("TestC03_Total", checkC03)
+	Register("TestC03_Text", checkC03Text)
 	for _, p := range []string{"$[1::9223372036854775807]", "$[::-9223372036854775808]", "$[-9223372036854775808:9223372036854775807:9223372036854775807]", "$[9223372036854775807]", "$[-9223372036854775808]"} {
 		AddSeed("TestC03_Total", &Case{Path: p, Doc: gen.Arr(gen.Num(1), gen.Num(2), gen.Num(3)), Funcs: true})
 	}
